@@ -193,7 +193,7 @@ def load_known():
 def finish(ctx, level="other", explanation="", rule_text="", checker_cmd=None, extra_cov=None):
     """Compare with known findings, write replay + evidence, print verdict lines, return exit code."""
     known = {e["key"]: e for e in load_known() if e.get("kind") == "finding" and e.get("property") == ctx.prop}
-    ev_dir = os.path.join(VERIF, "evidence")
+    ev_dir = os.environ.get("VERIF_EVIDENCE_DIR") or os.path.join(VERIF, "evidence")
     rp_dir = os.path.join(ev_dir, "replay")
     os.makedirs(rp_dir, exist_ok=True)
     # remove stale replay files of this property
